@@ -115,6 +115,17 @@ func (p *c02) Init(tier string) {
 			add(Bin{"+", Case{Whens: []When{{cc, Lit{V: 1.0}}}, Else: v}, Lit{V: 1.0}})
 		}
 	}
+	// shift counts at and beyond the operand width: every bit is shifted out (a count is not taken
+	// modulo 64); counts from a constant, from a column and from a sub-expression
+	for _, op := range []string{"<<", ">>"} {
+		for _, l := range []Expr{Col{"a"}, Col{"o.p.q"}, Lit{V: 1.0}, Lit{V: 3.0}, Lit{V: 1024.0}} {
+			for _, n := range []float64{31, 32, 33, 52, 62, 63, 64, 65, 66, 100, 127, 128, 1000} {
+				add(Bin{op, l, Lit{V: n}})
+			}
+			add(Bin{op, l, Bin{"+", Col{"o.p.q"}, Lit{V: 60.0}}})
+			add(Bin{op, l, Bin{"*", Col{"o.p.q"}, Lit{V: 32.0}}})
+		}
+	}
 	// string literals spelled like the numeric literals used all over this check
 	for _, sl := range []string{"2", "0.5", "3", "-1", "1", "0", "100"} {
 		add(Lit{V: sl})
